@@ -1,2 +1,4 @@
 import CG.Driver.Codec
 import CG.Model.EdgeList
+import CG.Model.Paths
+import CG.Model.DSep
